@@ -118,8 +118,24 @@ func (c *Compiler) Code() *Code {
 	return c.main
 }
 
-// Compile the given AST node and return the compiled code object.
+// Compile the given AST node and return the compiled code object. The code is
+// appended to the main code object, which may already hold the code of earlier
+// calls (incremental compilation, as in the REPL). If compilation fails,
+// everything this call added to the main code object and to its symbol table
+// is removed again, so that rejected input has no effect on later calls.
 func (c *Compiler) Compile(node ast.Node) (*Code, error) {
+	mark := c.main.mark()
+	funcIndex := c.funcIndex
+	code, err := c.compileMain(node)
+	if err != nil {
+		c.main.rollback(mark)
+		c.funcIndex = funcIndex
+		return nil, err
+	}
+	return code, nil
+}
+
+func (c *Compiler) compileMain(node ast.Node) (*Code, error) {
 	c.failure = nil
 	if c.main.source == "" {
 		c.main.source = node.String()
